@@ -135,7 +135,12 @@ static void delay(void) {
     /* mostly short, sometimes long */
     if (((t_rng >> 10) & 7) != 0) us = us / 16;
     struct timespec ts = { (time_t)(us / 1000000), (long)(us % 1000000) * 1000 };
+    /* nanosleep is a cancellation point: the injected delay must not give reb_simulation_stop_server's pthread_cancel a
+       place to kill the server thread where the library has none (e.g. inside its critical section) */
+    int old;
+    pthread_setcancelstate(PTHREAD_CANCEL_DISABLE, &old);
     nanosleep(&ts, NULL);
+    pthread_setcancelstate(old, NULL);
 }
 
 /* ------------------------------------------------------------------ interposed: libc */
